@@ -31,11 +31,11 @@ pub fn battery<Ty: EdgeType, Ix: IndexType>(g: &Sg<Ty, Ix>) -> Vec<String> {
     v.push(line("exti", &g.externals(Direction::Incoming).map(|x| x.index() as i64).collect::<Vec<_>>()));
     let ids: Vec<i64> = g.node_indices().map(|x| x.index() as i64).collect();
     for &a in &ids {
-        v.push(line("nbo", &with(a, g.neighbors(ni(a)).map(|x| x.index() as i64).collect())));
-        v.push(line("nbi", &with(a, g.neighbors_directed(ni(a), Direction::Incoming).map(|x| x.index() as i64).collect())));
-        v.push(line("nbu", &with(a, g.neighbors_undirected(ni(a)).map(|x| x.index() as i64).collect())));
-        v.push(line("edo", &with(a, eref_flat(g.edges(ni(a))))));
-        v.push(line("edi", &with(a, eref_flat(g.edges_directed(ni(a), Direction::Incoming)))));
+        v.push(line("nbo", &with(a, g.neighbors(ni(a)).take(4000).map(|x| x.index() as i64).collect())));
+        v.push(line("nbi", &with(a, g.neighbors_directed(ni(a), Direction::Incoming).take(4000).map(|x| x.index() as i64).collect())));
+        v.push(line("nbu", &with(a, g.neighbors_undirected(ni(a)).take(4000).map(|x| x.index() as i64).collect())));
+        v.push(line("edo", &with(a, eref_flat(g.edges(ni(a)).take(4000)))));
+        v.push(line("edi", &with(a, eref_flat(g.edges_directed(ni(a), Direction::Incoming).take(4000)))));
     }
     // every iterator must describe the same element sets
     if ids != nodes.chunks(2).map(|c| c[0]).collect::<Vec<_>>() { v.push("node-indices-vs-references-mismatch".into()); }
@@ -111,7 +111,16 @@ pub fn is_query(name: &str) -> bool {
 
 fn run_sg<Ty: EdgeType, Ix: IndexType>(ops: &[GOp], out: &mut Out) {
     let mut g: Sg<Ty, Ix> = StableGraph::default();
+    let mut snap: Option<Sg<Ty, Ix>> = None;
     for o in ops {
+        if o.0 == "snapshot" || o.0 == "clone_from" {
+            if o.0 == "snapshot" { snap = Some(g.clone()); }
+            else { let mut h = snap.take().unwrap_or_default(); h.clone_from(&g); g = h; }
+            let mut v = vec!["unit".to_string()];
+            match catch_unwind(AssertUnwindSafe(|| battery(&g))) { Ok(b) => v.extend(b), Err(_) => v.push("battery-panic".into()) }
+            out.obs_lines(&v);
+            continue;
+        }
         let mut v = match catch_unwind(AssertUnwindSafe(|| apply(&mut g, o))) { Ok(s) => s, Err(_) => vec!["panic".to_string()] };
         if !is_query(&o.0) {
             match catch_unwind(AssertUnwindSafe(|| battery(&g))) { Ok(b) => v.extend(b), Err(_) => v.push("battery-panic".into()) }
@@ -217,6 +226,11 @@ pub fn gen(seed: u64, n: usize, out: &mut Out) {
                     }
                 }
             }
+        }
+        if r.chance(35) && ops.len() > 6 {
+            // keep a clone early, overwrite it later through clone_from and go on with it
+            let i = 1 + r.below(ops.len() / 2); ops.insert(i, ("snapshot".into(), vec![]));
+            let j = i + 2 + r.below(ops.len() - i - 2); ops.insert(j, ("clone_from".into(), vec![]));
         }
         run_case(id, &[directed as i64, 0, cap, capcheck, ixc], &ops, out);
     }
